@@ -28,7 +28,9 @@ TITLES = {'plain': 'Data', 'space': 'My Sheet', 'quote': "it's", 'dquote': 'say 
 CONSTS = {'int': 42, 'float': 2.5, 'bigint': 12345678901234, 'bool': True, 'text': 'hello', 'text_quote': "it's \"q\"",
           'text_backslash': 'a\\', 'text_newline': 'a\nb', 'text_brace': '{x} {0} %s', 'datetime': datetime.datetime(2024, 1, 2, 3, 4, 5),
           'date': datetime.date(2024, 2, 29), 'time': datetime.time(3, 4, 5), 'timedelta': datetime.timedelta(hours=30),
-          'errstr': '#N/A', 'empty': '', 'numtext': '0012', 'eqtext_const': "'=1+1", 'datatable': 'DATATABLE'}
+          'errstr': '#N/A', 'empty': '', 'numtext': '0012', 'eqtext_const': "'=1+1", 'datatable': 'DATATABLE',
+          # placeholders: the stored number is rewritten in the file to one beyond the range of a double (see overflow_in_file)
+          'overflow': 987654321.25, 'overflow_neg': -987654321.25}
 FORMULAS = {
     'none': None, 'valid_arith': '=(B1+2)*3-B1/4', 'valid_fn': '=ROUND(SUM(B1:B2,1)/3,2)',
     'valid_nested3': '=IF(B1>1,IF(B1>2,MAX(B1,3),2),1)', 'valid_crosssheet': "={T}!B1+1", 'valid_wholecol': '=SUM(B:B)',
@@ -76,12 +78,32 @@ def build_sheets(d):
     return [(title, cells), (other, {(1, 0): 9})]
 
 
+def overflow_in_file(path):
+    """The placeholder number of the file becomes 1e999 / -1e999: a stored number no double can hold (a file written by another tool)"""
+    import shutil
+    import zipfile
+    tmp = path + '.tmp'
+    n = 0
+    with zipfile.ZipFile(path) as zin, zipfile.ZipFile(tmp, 'w', zipfile.ZIP_DEFLATED) as zout:
+        for name in zin.namelist():
+            data = zin.read(name)
+            if name.startswith('xl/worksheets/'):
+                n += data.count(b'<v>987654321.25</v>') + data.count(b'<v>-987654321.25</v>')
+                data = data.replace(b'<v>987654321.25</v>', b'<v>1e999</v>').replace(b'<v>-987654321.25</v>', b'<v>-1e999</v>')
+            zout.writestr(zin.getinfo(name), data)
+    shutil.move(tmp, path)
+    if n != 1:
+        raise RuntimeError(f'overflow placeholder found {n} times in {path}')
+
+
 def probe(d, scratch):
     """Full public path: xlsx -> Parser.write_translation -> load both ways. Returns (outcome, detail)."""
     sheets = build_sheets(d)
     xlsx = os.path.join(scratch, f'c06-{os.getpid()}.xlsx')
     py = os.path.join(scratch, f'c06-{os.getpid()}.py')
     repo.write_xlsx(xlsx, sheets)
+    if d['const'] in ('overflow', 'overflow_neg'):
+        overflow_in_file(xlsx)
     try:
         ps = Parser().set_excel_file_path(xlsx).disable_safety_check()
         repo.with_timeout(30, ps.write_translation, py)
